@@ -8,7 +8,8 @@
 (*   Atof{text, t, r, lo, hi, r2, lo2, hi2, abort}   Field<double>(text) / fast_atof; t = [neg, wh,  *)
 (*                                             wl, f, d] is the numeral (checked: DecText(t) = text), *)
 (*                                             r the exact value of the double returned, lo / hi the  *)
-(*                                             doubles next to it (in magnitude)                      *)
+(*                                             doubles next to it (in magnitude), lo8 / hi8 the 8th   *)
+(*                                             neighbours (used only to classify a rejection)         *)
 (* The expected texts / values are recomputed here (Numeric.tla) from those small integers.  A call  *)
 (* stopped by UBSan/ASan (abort) did not deliver the demanded result and is rejected.               *)
 (* Readings that cannot raise a false alarm: on an exact decimal tie either neighbour is accepted;  *)
@@ -59,11 +60,11 @@ MonStep(e) ==
            ELSE IF e.abort THEN Bad("parse stopped by the sanitizer: " \o e.san, "atof:undefined_behaviour")
            ELSE IF e.r.huge \/ e.r2.huge THEN Bad("parsed value is not a finite number below 2^31 + 1", "atof:huge")
            ELSE IF AcceptParse(e.r, e.lo, e.hi, e.t) /\ AcceptParse(e.r2, e.lo2, e.hi2, e.t) THEN Good
-           ELSE LET bad == IF AcceptParse(e.r, e.lo, e.hi, e.t) THEN [r |-> e.r2, lo |-> e.lo2, hi |-> e.hi2]
-                           ELSE [r |-> e.r, lo |-> e.lo, hi |-> e.hi]
+           ELSE LET bad == IF AcceptParse(e.r, e.lo, e.hi, e.t) THEN [r |-> e.r2, lo |-> e.lo2, hi |-> e.hi2, lo8 |-> e.lo82, hi8 |-> e.hi82]
+                           ELSE [r |-> e.r, lo |-> e.lo, hi |-> e.hi, lo8 |-> e.lo8, hi8 |-> e.hi8]
                     grid == IF DoubleGridCoarser(bad.r, bad.hi, e.t) THEN "double_grid_coarser" ELSE "decimal_grid_coarser"
                 IN Bad("parsed value is neither within half a unit of the last printed decimal place nor the nearest double",
-                       "atof:" \o grid \o ":" \o (IF Adjacent(bad.lo, bad.hi, e.t) THEN "adjacent_double" ELSE "far_off"))
+                       "atof:" \o grid \o ":" \o (IF Between(bad.lo8, bad.hi8, e.t) THEN "few_ulps_off" ELSE "far_off"))
       [] OTHER -> Good
 
 Init == l = 1 /\ fails = <<>> /\ nexec = 0
